@@ -29,18 +29,13 @@ def nsAt (w row col : Nat) (data : Bytes) : Bytes :=
 def rowShares (w : Nat) (sq : List Bytes) (row : Nat) : List (Bytes × Bytes) :=
   (List.range w).filterMap (fun c => (sq[row * w + c]?).map (fun d => (nsAt w row c d, d)))
 
-def minOf (l : List Bytes) : Option Bytes :=
-  l.foldl (fun acc x => match acc with | none => some x | some m => some (if ltBytes x m then x else m)) none
-def maxOf (l : List Bytes) : Option Bytes :=
-  l.foldl (fun acc x => match acc with | none => some x | some m => some (if ltBytes m x then x else m)) none
-
-/-- does the root range of the row cover `ns`? -/
+/-- does the root range of the row cover `ns`?  The range is [smallest namespace, largest non-parity namespace]
+    (a row of parity shares only has the range [parity, parity]): some share's namespace is ≤ `ns`, and either the
+    whole row is parity or some non-parity share's namespace is ≥ `ns`. -/
 def rowCovers (w : Nat) (sq : List Bytes) (row : Nat) (ns : Bytes) : Bool :=
   let nss := (rowShares w sq row).map Prod.fst
-  let nonParity := nss.filter (fun n => n != parityNs)
-  match minOf nss, (if nonParity.isEmpty then maxOf nss else maxOf nonParity) with
-  | some lo, some hi => leBytes lo ns && leBytes ns hi
-  | _, _ => false
+  nss.any (fun n => leBytes n ns) &&
+    (nss.all (fun n => n == parityNs) || nss.any (fun n => n != parityNs && leBytes ns n))
 
 /-- brute-force scan: for every covered row, in row order, exactly the shares of the namespace in that row -/
 def expected (w : Nat) (sq : List Bytes) (ns : Bytes) : List (Nat × List Bytes) :=
